@@ -12,27 +12,29 @@
    goes through handles obtained from the current root right before it), the canonical trees
    the constructors build [cfield_tree] and the statement of the whole property [C11_full].
 
-   The code as it is in /repo (HEAD c2fa7c8) violates the property in eight places (each
-   reproduced on the real code through the rel-edit stream; proposed_fixes/C11-*.patch; three
-   more defects of DESIGN §5 — immutable re-root, add_profile replacing, the builder's "[]" —
-   were repaired in /repo meanwhile and the model follows them).  [fixed] is the code with all
-   eight patches; the positive theorems are about [fixed]; for every defect there is a
-   `_refuted` theorem with the failing history on [shipped], on the variant that lacks only that
-   fix, and the repaired outcome on [fixed].
+   The code violated the property in eleven places, each reproduced on the real code through the
+   rel-edit stream.  Three (immutable re-root, add_profile replacing, the builder's "[]") were
+   repaired in /repo by other cones; for the other eight this cone's patches
+   (proposed_fixes/C11-0[1-8]-*.patch) were committed to /repo as 40d0dc3 f412265 a55af40
+   548f939 198f3cc d30d94a aeb4417 12709db.  [fixed] is the code as it is now in /repo (all eight
+   applied), [shipped] the code before them (c2fa7c8); the positive theorems are about [fixed];
+   for every defect there is a `_refuted` theorem with the failing history on [shipped], on the
+   variant that lacks only that fix, and the repaired outcome on [fixed].
 
    What is proved and what is not (C11_full stays a Definition, see C11_partial_note below):
    * PROVED, unbounded, at the level of the STORE (no-panic + refinement + visibility in the
      root + text): every in-range history of push / insert / replace / remove_entry /
-     remove_relation / set_version / drop_constraint / set_archqual, with operands built by
-     Entry::from(vec![Relation::new(..)]), from Relations::new() or from any field built by the
-     constructors (and qualifiers added by set_archqual): C11_history_constructed,
+     Entry::push / Entry::replace / remove_relation / set_version / drop_constraint /
+     set_archqual, with operands built by Entry::from(vec![Relation::new(..)]) / Relation::new,
+     from Relations::new() or from any field built by the constructors (and qualifiers added by
+     set_archqual): C11_history_constructed,
      C11_history_from_constructors, C11_history_from_new.  After every step the root register
      holds exactly the constructor-built tree of the list model's field; its structure (read by
      the model of the accessors) is the list model; its text is the canonical rendering, so
      separators are never duplicated, dangling or fused.  With identifier texts in the operands
      the printed text is also proved to read back, strictly and without error, as the list
      model (C11_history_constructed_reread, through C10_lossless): this is C11_full restricted
-     to constructor-built fields, these eight operations and constructor-built operands.
+     to constructor-built fields, these ten operations and constructor-built operands.
    * PROVED for ANY children list (any layout, empty entries, substitution variables, error
      nodes): the frame lemmas of the list surgery — Entry::remove / Relation::remove delete the
      node plus adjacent white space and at most one separator token and nothing else;
@@ -42,7 +44,7 @@
      Entry::remove through a handle at any path of any tree (C11_entry_remove_store).
    * NOT PROVED (covered by the rel-edit stream and its oracle on every run): the history
      theorem for fields with layouts other than the constructors' (and with it the re-read
-     clause for those layouts); operands built by parsing and by the builder; Entry::push, Entry::replace,
+     clause for those layouts); operands built by parsing and by the builder;
      set_architectures, add_profile inside the history theorem; handles obtained earlier. *)
 From V.model Require Import Base RelLex RelParse RelEdit RelEditSpec.
 From V.proofs Require Import BaseP RelEditP RelEditStP RelEditHistP RelEditReparseP RelEditFullP RelEditRefuteP.
@@ -247,8 +249,8 @@ Check C11_entry_remove_store : forall ts rs r tid ri T p kd pre x post cs',
     (forall g, above tid p g -> F g = g).
 Print Assumptions C11_entry_remove_store.
 
-(* 5. The defects of the shipped code (/repo HEAD c2fa7c8): the failing history on [shipped], on the
-   variant without that one fix, and the outcome on [fixed] *)
+(* 5. The defects of the code before this cone's fixes (/repo c2fa7c8): the failing history on
+   [shipped], on the variant without that one fix, and the outcome on [fixed] *)
 (* insert(0, b) into "a": the separator is left out, the names fuse *)
 Theorem C11_insert_first_refuted : 
   run_text shipped (IStrict [97]%N) [ONewEntry 1 (ESParse [98]%N); OInsert 0 1] = Ok [98; 97]%N /\
@@ -372,15 +374,17 @@ Check C11_stale_handle_witness :
   run_text fixed (IStrict [97; 44; 32; 98]%N) [ONewEntry 1 (ESParse [99]%N); OPush 1; OGetEntry 0 0; ONewRel 1 (RSSimple [120]%N); OEPush 0 1] = Ok [97; 32; 124; 32; 120; 44; 32; 98; 44; 32; 99]%N.
 Print Assumptions C11_stale_handle_witness.
 
-(* Non-vacuity: a field of two entries, a history that uses all eight operations in range; the
+(* Non-vacuity: a field of two entries, a history that uses all ten operations in range; the
    hypotheses of C11_history_from_constructors hold and the final text is computed. *)
 Example C11_ex :
   let r n v := mk_relrec n None v None [] in
   let f := [[r [97]%N (Some (VGe, [49]%N)); r [98]%N None]; [r [99]%N None]] in
   let ops := [APush [r [100]%N None]; AInsert 0 [r [101]%N (Some (VEq, [50]%N))]; AReplace 1 [r [120]%N None; r [121]%N None];
               ASetArchqual 1 0 [97; 110; 121]%N; ASetVersion 1 0 (Some (VLt, [51]%N)); ADropConstraint 0 0;
-              ARemoveRelation 1 1; ARemoveRelation 2 0; ARemoveEntry 0] in
+              ARemoveRelation 1 1; ARemoveRelation 2 0; ARemoveEntry 0;
+              AEPush 1 (r [122]%N None); AEReplace 1 0 (r [119]%N (Some (VGt, [52]%N)))] in
+  lfield_ok f = true /\ forallb aop_ok ops = true /\
   forallb (forallb new_only) f = true /\ forallb aop_plain ops = true /\ hist_in_range f ops = true /\
-  run_text fixed (IFromVec (map entry_spec f)) (compile_all ops) = Ok [120; 58; 97; 110; 121; 32; 40; 60; 60; 32; 51; 41; 44; 32; 100]%N /\
-  fold_left astep ops f = [[mk_relrec [120]%N (Some [97; 110; 121]%N) (Some (VLt, [51]%N)) None []]; [r [100]%N None]].
+  run_text fixed (IFromVec (map entry_spec f)) (compile_all ops) = Ok [120; 58; 97; 110; 121; 32; 40; 60; 60; 32; 51; 41; 44; 32; 119; 32; 40; 62; 62; 32; 52; 41; 32; 124; 32; 122]%N /\
+  fold_left astep ops f = [[mk_relrec [120]%N (Some [97; 110; 121]%N) (Some (VLt, [51]%N)) None []]; [r [119]%N (Some (VGt, [52]%N)); r [122]%N None]].
 Proof. vm_compute. repeat split; reflexivity. Qed.
